@@ -6,9 +6,10 @@
 (*  fit   - N draws of fit case FitCases[case]: cls = how many variates fell   *)
 (*          in each class relative to the support bounds of Samplers!Support   *)
 (*          (NaN, -inf, below, =lo, inside, =hi, above, +inf), cnt = how many  *)
-(*          fell in each bin (continuous: the equal-probability bins cut by    *)
-(*          the case's edges; discrete: the bins of Samplers!DiscBins, plus a   *)
-(*          last counter for in-bounds values that belong to no bin)            *)
+(*          fell in each bin (continuous: the bins cut by the case's quantile  *)
+(*          edges, bin i of probability pw[i]/pd; discrete: the bins of        *)
+(*          Samplers!DiscBins, plus a last counter for in-bounds values that   *)
+(*          belong to no bin)                                                  *)
 (*  atab  - the look-up table cmb_random_alias_create built for an alias case  *)
 (*  rule  - one draw whose uniform variate was steered into a cell chosen by   *)
 (*          the design model (prefix of the consumed raw words, result)         *)
@@ -31,7 +32,6 @@ PrefixSums(s) == [j \in 1..Len(s) |-> SumRange(s, 1, j)]
 
 RECURSIVE Log2(_)
 Log2(b) == IF b <= 1 THEN 0 ELSE 1 + Log2(b \div 2)
-IsPow2(b) == Pow(2, Log2(b)) = b
 
 Good == [ok |-> TRUE, rule |-> "", diag |-> <<>>]
 Bad(r, d) == [ok |-> FALSE, rule |-> r, diag |-> d]
@@ -39,34 +39,44 @@ Bad(r, d) == [ok |-> FALSE, rule |-> r, diag |-> d]
 OutsideSupport(cls) == cls[1] + cls[2] + cls[3] + cls[7] + cls[8]
 
 (* ------------------------------------------------------------ continuous fit *)
+(* bin i has probability c.pw[i]/c.pd.  Judged: every bin, every union of 2^lev adjacent bins  *)
+(* (aligned), and the empirical distribution function at every edge.                            *)
 FitCont(e, c) ==
-  LET B == Len(c.edges) + 1
+  LET nb == Len(c.pw)
       n == e.n
+      d == c.pd
       ps == PrefixSums(e.cnt)
+      aw == PrefixSums(c.pw)
       P(j) == IF j = 0 THEN 0 ELSE ps[j]
-      levels == 0..Log2(B)
-      \* union of g = 2^lev adjacent bins, number j: bins (j-1)g+1 .. jg, probability g/B
-      GroupCnt(lev, j) == LET g == Pow(2, lev) IN P(j * g) - P((j - 1) * g)
-      BinFails == {x \in UNION {{<<lev, j>> : j \in 1..(B \div Pow(2, lev))} : lev \in levels} :
-                     ~FreqOK(GroupCnt(x[1], x[2]), n, Pow(2, x[1]), Pow(2, x[1]), B)}
-      EdfFails == {j \in 1..(B - 1) : ~FreqOK(P(j), n, j, j, B)}
+      A(j) == IF j = 0 THEN 0 ELSE aw[j]
+      levels == 0..Log2(nb)
+      G(lev) == Pow(2, lev)
+      First(lev, j) == (j - 1) * G(lev)
+      Last(lev, j) == Min2(nb, j * G(lev))
+      UCnt(lev, j) == P(Last(lev, j)) - P(First(lev, j))
+      UPr(lev, j) == A(Last(lev, j)) - A(First(lev, j))
+      BinFails == {x \in UNION {{<<lev, j>> : j \in 1..((nb + G(lev) - 1) \div G(lev))} : lev \in levels} :
+                     ~FreqOK(UCnt(x[1], x[2]), n, UPr(x[1], x[2]), UPr(x[1], x[2]), d)}
+      EdfFails == {j \in 1..(nb - 1) : ~FreqOK(P(j), n, A(j), A(j), d)}
   IN
-  IF ~IsPow2(B) \/ Len(e.cnt) # B \/ Len(e.cls) # 8 THEN Bad("harness-bin-count", <<B, Len(e.cnt)>>)
+  IF Len(e.cnt) # nb \/ Len(e.cls) # 8 \/ Len(c.edges) # nb - 1 THEN Bad("harness-bin-count", <<nb, Len(e.cnt)>>)
   ELSE IF SumSeq(e.cls) # n \/ SumSeq(e.cnt) # n - e.cls[1] - e.cls[2] - e.cls[8] THEN Bad("harness-counts-do-not-add-up", <<n>>)
   ELSE IF OutsideSupport(e.cls) > 0
     THEN Bad("sample-outside-support", [case |-> c.id, sampler |-> c.s, par |-> c.par, draws |-> n, nan |-> e.cls[1], neginf |-> e.cls[2],
                                         below |-> e.cls[3], above |-> e.cls[7], posinf |-> e.cls[8]])
+  ELSE IF ~c.fitted THEN Good      \* the parameters do not fix the distribution exactly: support only
   ELSE IF BinFails # {}
     THEN LET x == CHOOSE y \in BinFails : \A z \in BinFails : y[1] > z[1] \/ (y[1] = z[1] /\ y[2] <= z[2])
-             g == Pow(2, x[1])
+             pr == UPr(x[1], x[2])
          IN Bad("bin-frequency-off-the-stated-distribution",
-                [case |-> c.id, sampler |-> c.s, par |-> c.par, draws |-> n, bins |-> B, union_of |-> g, number |-> x[2], count |-> GroupCnt(x[1], x[2]),
-                 allowed |-> <<FreqLo(n, g, g, B), FreqHi(n, g, g, B)>>, failing_unions |-> Cardinality(BinFails)])
+                [case |-> c.id, sampler |-> c.s, par |-> c.par, draws |-> n, bins |-> <<First(x[1], x[2]) + 1, Last(x[1], x[2])>>, of |-> nb,
+                 probability |-> <<pr, d>>, count |-> UCnt(x[1], x[2]), allowed |-> <<FreqLo(n, pr, pr, d), FreqHi(n, pr, pr, d)>>,
+                 failing_unions |-> Cardinality(BinFails)])
   ELSE IF EdfFails # {}
     THEN LET j == CHOOSE y \in EdfFails : \A z \in EdfFails : y <= z
          IN Bad("empirical-distribution-function-off-the-stated-distribution",
-                [case |-> c.id, sampler |-> c.s, par |-> c.par, draws |-> n, at_quantile |-> <<j, B>>, count_below |-> P(j),
-                 allowed |-> <<FreqLo(n, j, j, B), FreqHi(n, j, j, B)>>, failing_points |-> Cardinality(EdfFails)])
+                [case |-> c.id, sampler |-> c.s, par |-> c.par, draws |-> n, at_probability |-> <<A(j), d>>, count_below |-> P(j),
+                 allowed |-> <<FreqLo(n, A(j), A(j), d), FreqHi(n, A(j), A(j), d)>>, failing_points |-> Cardinality(EdfFails)])
   ELSE Good
 
 (* ------------------------------------------------------------ discrete fit *)
